@@ -75,6 +75,8 @@ def register(E):
         iz = index.z
         return VInt(z3.If(iz < 0, z3.If(nz + iz < 0, z3.IntVal(0), nz + iz), z3.If(iz > nz, nz, iz)))
 
+    register_dispatch(E)
+    register_dispatch_contract(E)
     E.specns['INSERT_AT'] = __import__('pyvc.interp', fromlist=['VSpecFn']).VSpecFn(I0, 'INSERT_AT')
 
     E.add_contract(Contract(
@@ -97,3 +99,247 @@ def register(E):
         exc_ensures=['self.routes == old(self.routes)'],
         may_raise_any=True,
         prop=['C06', 'C11']))
+
+
+# ======================================================================================
+# request path: dispatch and what it calls
+# ======================================================================================
+BR_CLS = 'werkzeug.wrappers.base_response.BaseResponse'
+HE_CLS = 'clastic.errors.HTTPException'
+RR_CLS = 'clastic.application.RerouteWSGI'
+
+MATCH = Z.func('MATCH', Z.Obj, Z.Str, Z.Bool)            # route's pattern matches (and converts) the path
+PPDOM = Z.func('PPDOM', Z.Obj, Z.Str, Z.SetSort(Z.Str))
+PPARR = Z.func('PPARR', Z.Obj, Z.Str, z3.ArraySort(Z.Str, Z.Obj))
+UPPER = Z.func('str_upper', Z.Str, Z.Str)
+NORM = Z.func('NORM', Z.Str, Z.Bool, Z.Str)
+LOCATION = Z.func('LOCATION', Z.Obj, Z.Str)
+STATUS = Z.func('STATUS', Z.Obj, Z.Int)
+ALLOW = Z.func('ALLOW', Z.Obj, Z.SetSort(Z.Str))
+HAS_BREAK = Z.func('hasattr:is_breaking', Z.Obj, Z.Bool)
+BREAK_ATTR = Z.const('H0:*.is_breaking', z3.ArraySort(Z.Obj, Z.Obj))
+
+
+def is_breaking_z(o):
+    return z3.If(HAS_BREAK(o), truthy(z3.Select(BREAK_ATTR, o)), z3.BoolVal(True))
+
+
+def register_dispatch(E):
+    I = E.interp
+    C = E.classes
+    from pyvc.interp import VSpecFn
+
+    def isinst(o, cls):
+        return issub(cls_of(o), C.const(cls))
+
+    E.add_opaque(OpaqueClass('Request', dotted='werkzeug.wrappers.request.Request', truthy=True, attrs={
+        'path': TStr, 'method': TStr, 'url_root': TStr, 'query_string': TBytes}))
+    E.add_opaque(OpaqueClass('Response', dotted='werkzeug.wrappers.response.Response', truthy=True))
+
+    # ---- callee summaries -----------------------------------------------------------------
+    def match_path_model(I, ctx, route, path):
+        m = MATCH(route.z, path.z)
+        return VOpt(Z.Not(m), VMap(PPDOM(route.z, path.z), PPARR(route.z, path.z), TStr, TObj()))
+
+    E.add_contract(Contract('clastic.route.BoundRoute.match_path', trusted=True, model=match_path_model,
+                            note='call-site summary: None iff the route does not match, else the dict of converted '
+                                 'bindings, never raises; the function itself is verified under C05'))
+
+    def admits_z(route_v, method_z, ctx):
+        ms = E.read_typed_attr(ctx, 'BoundRoute.methods', TOpt(TSet(TStr)), route_v.z)
+        none_or_empty = z3.Or(ms.isnone, ms.val.z == Z.empty_set(Z.Str))
+        return z3.Or(z3.Length(method_z) == 0, none_or_empty, z3.IsMember(UPPER(method_z), ms.val.z))
+
+    E.admits_z = admits_z
+
+    # BoundRoute.match_method is small: it is inlined into dispatch (and verified on its own for C06)
+    def normalize_model(I, ctx, path, is_branch):
+        r = NORM(path.z, I.truth(ctx, is_branch))
+        return VStr(r)
+
+    E.add_contract(Contract('clastic.route.normalize_path', trusted=True, model=normalize_model,
+                            note='call-site summary: a pure function of (path, is_branch); verified under C07'))
+
+    def redirect_model(I, ctx, location, code=None, Response=None):
+        r = ctx.new_obj('redirect', distinct=False)
+        ctx.assume(isinst(r, 'werkzeug.wrappers.response.Response'))
+        ctx.assume(LOCATION(r) == location.z)
+        ctx.assume(STATUS(r) == (TInt.to_z(code) if code is not None else 302))
+        return VObj(r, 'Response')
+
+    E.externals['werkzeug.utils.redirect'] = redirect_model
+
+    # error types of the error handler: calling one builds an HTTPException instance
+    def errtype_call(I, ctx, fv, *args, **kwargs):
+        e = ctx.new_obj('httperr', distinct=False)
+        ctx.assume(isinst(e, HE_CLS))
+        ctx.assume(Z.func('ERRTYPE_OF', Z.Obj, Z.Obj)(e) == fv.z)
+        ctx.assume(z3.Or(z3.Not(HAS_BREAK(e)), truthy(z3.Select(BREAK_ATTR, e))))    # is_breaking defaults to True
+        sr = kwargs.get('source_route')
+        ctx.assume(Z.func('hasattr:source_route', Z.Obj, Z.Bool)(e))
+        ctx.attr_write('*.source_route', Z.Obj, e, box(sr, ctx) if sr is not None else Z.NONE)
+        ctx.writes.pop()        # initialisation of a fresh object, not a write to a shared one
+        if 'allowed_methods' in kwargs:
+            ctx.assume(ALLOW(e) == M.iterable_as_set(I, ctx, kwargs['allowed_methods'])[0])
+            ctx.assume(STATUS(e) == 405)
+        return VObj(e)
+
+    E.add_opaque(OpaqueClass('ErrType', methods={'__call__': errtype_call}, callable_=True, truthy=True))
+    for nm in ('not_found_type', 'method_not_allowed_type', 'server_error_type', 'exc_info_type'):
+        E.opaque['EH'].attrs[nm] = TObj('ErrType', inv=lambda t: t != Z.NONE)
+
+    UNCAUGHT = Z.func('UNCAUGHT_RESP', Z.Obj, Z.Obj, Z.Obj)     # (handler, exception) -> server error response
+    RERAISE = Z.func('RERAISE', Z.Obj, Z.Bool)
+
+    def uncaught_model(I, ctx, eh, **kwargs):
+        cur = getattr(ctx, 'handling', None)
+        if ctx.branch(RERAISE(eh.z)):
+            raise RaiseSig(cur, None)
+        ez = box(cur, ctx)
+        r = UNCAUGHT(eh.z, ez)
+        ctx.assume(isinst(r, HE_CLS))
+        ctx.assume(r != Z.NONE)
+        ctx.assume(is_breaking_z(r))
+        ctx.assume(STATUS(r) == 500)
+        return VObj(r)
+
+    E.opaque['EH'].methods['uncaught_to_response'] = uncaught_model
+
+    # route.execute(**params): user code -- any result, any exception; the built-in catch-all
+    # route runs NullRoute.handle_sentinel_condition on the injected dispatch state
+    IS_NULL = Z.func('IS_NULL_ROUTE', Z.Obj, Z.Bool)
+    XRAISES = Z.func('XRAISES', Z.Obj, Z.Bool)
+    XRET = Z.func('XRET', Z.Obj, Z.Obj)
+    XEXC = Z.func('XEXC', Z.Obj, Z.Obj)
+    E.ghost.update(IS_NULL=IS_NULL, XRAISES=XRAISES, XRET=XRET, XEXC=XEXC, MATCH=MATCH)
+
+    def execute_model(I, ctx, route, request=None, **kwargs):
+        star = kwargs.pop('__star__', None)
+        ctx.trace.append(('execute', route, request, kwargs, star))
+        if ctx.branch(IS_NULL(route.z)):
+            # composition of the verified contracts of inject / the generated chain /
+            # handle_sentinel_condition (C01, C02, C06): the sentinel sees this request's dispatch state
+            ds = None
+            if star is not None:
+                d = M.dict_sym(I, ctx, star)
+                ds = ctx.unbox_ref(Z.simp(z3.Select(d[1], z3.StringVal('_dispatch_state'))))
+            if ds is None:
+                raise Exception('execute model: dispatch state not found in params')
+            h = ctx.heap[ds.rid]
+            excs = I._as_seq(ctx, h.fields['exceptions'], TObj())
+            am = I._as_set(ctx, h.fields['allowed_methods'])
+            n = z3.Length(excs[0])
+            if ctx.branch(n > 0):
+                return VObj(Z.simp(excs[0][n - 1]))
+            eh = ctx.heap[ctx.app_self.rid].fields['error_handler']
+            if ctx.branch(am[0] != Z.empty_set(Z.Str)):
+                t = E.read_typed_attr(ctx, 'EH.method_not_allowed_type', E.opaque['EH'].attrs['method_not_allowed_type'], eh.z)
+                return errtype_call(I, ctx, t, allowed_methods=VSet(am[0], TStr))
+            t = E.read_typed_attr(ctx, 'EH.not_found_type', E.opaque['EH'].attrs['not_found_type'], eh.z)
+            r = errtype_call(I, ctx, t)
+            ctx.assume(STATUS(r.z) == 404)
+            return r
+        if ctx.branch(XRAISES(route.z)):
+            e = XEXC(route.z)
+            ctx.assume(isinst(e, 'builtins.Exception'))
+            ctx.assume(e != Z.NONE)
+            raise RaiseSig(VObj(e), None)
+        return VObj(XRET(route.z))
+
+    E.add_contract(Contract('clastic.route.BoundRoute.execute', trusted=True, model=execute_model,
+                            note='call-site summary used by dispatch: the outcome of executing a route is an '
+                                 'uninterpreted function of the route within one request (any value, any Exception); '
+                                 'for the built-in catch-all route it is the verified contract of '
+                                 'NullRoute.handle_sentinel_condition applied to this request\'s dispatch state'))
+
+    def from_star(I, ctx, star, name):
+        d = M.dict_sym(I, ctx, star)
+        return d[3].wrap(Z.simp(z3.Select(d[1], z3.StringVal(name))))
+
+    def execute_error_model(I, ctx, route, request=None, _error=None, **kwargs):
+        star = kwargs.pop('__star__', None)
+        if _error is None and star is not None:
+            _error = from_star(I, ctx, star, '_error')
+        if ctx.nondet(2, 'render_error raises') == 1:
+            any_exception(E, ctx)
+        r = ctx.new_obj('rendered_error', distinct=False)
+        ctx.assume(isinst(r, BR_CLS))
+        ctx.assume(Z.func('RENDERED_FROM', Z.Obj, Z.Obj)(r) == box(_error, ctx) if _error is not None else Z.TRUE)
+        return VObj(r)
+
+    E.add_contract(Contract('clastic.route.BoundRoute.execute_error', trusted=True, model=execute_error_model,
+                            note='call-site summary: the error renderer returns a Response or raises anything '
+                                 '(precondition on user render_error functions: they return Responses)'))
+
+    def default_render_error_model(I, ctx, request=None, _error=None, **kwargs):
+        star = kwargs.pop('__star__', None)
+        if _error is None and star is not None:
+            _error = from_star(I, ctx, star, '_error')
+        return _error
+
+    E.add_contract(Contract('clastic.application.default_render_error', trusted=True, model=default_render_error_model,
+                            note='call-site summary: adapts and returns the same error object, never raises '
+                                 '(verified under C09 with A-wz-req: best_match total)'))
+    E.attr_types = getattr(E, 'attr_types', {})
+    E.attr_types['source_route'] = TObj('BoundRoute')
+
+
+def register_dispatch_contract(E):
+    I = E.interp
+    C = E.classes
+    from pyvc.interp import VSpecFn
+    IS_NULL = E.ghost['IS_NULL']
+
+    @E.spec('IS_NULL_ROUTE')
+    def IS_NULL_ROUTE(I, ctx, r):
+        return VBool(IS_NULL(r.z))
+
+    @E.spec('MATCHES')
+    def MATCHES(I, ctx, r, path):
+        return VBool(MATCH(r.z, path.z))
+
+    @E.spec('ADMITS')
+    def ADMITS(I, ctx, r, method):
+        return VBool(E.admits_z(r, method.z, ctx))
+
+    @E.spec('ISBREAKING')
+    def ISBREAKING(I, ctx, o):
+        o = I.resolve(ctx, o)
+        if isinstance(o, VNone):
+            return VBool(True)
+        return VBool(is_breaking_z(o.z))
+
+    @E.spec('RERAISE')
+    def RERAISE_(I, ctx, eh):
+        return VBool(Z.func('RERAISE', Z.Obj, Z.Bool)(eh.z))
+
+    @E.spec('no_null_routes')
+    def no_null_routes(I, ctx, routes):
+        q = I._as_seq(ctx, I.resolve(ctx, routes), TBRoute)
+        k = z3.Int(Z.fresh_name('qi'))
+        return VBool(z3.ForAll([k], z3.Implies(z3.And(k >= 0, k < z3.Length(q[0])), z3.Not(IS_NULL(q[0][k])))))
+
+    def setup(E_, ctx, fr):
+        ctx.app_self = fr.locals['self']
+
+    HE, BR, RR = HE_CLS, BR_CLS, RR_CLS
+    wf = ['IS_NULL_ROUTE(self._null_route)', 'no_null_routes(self.routes)',
+          'MATCHES(self._null_route, request.path)', 'self._null_route.methods is None',
+          'not self._null_route.is_branch']
+    loop = LoopSpec(
+        inv=['ret is None or isinstance_of(ret, "%s")' % HE,
+             'implies(_i > len(self.routes), isinstance_of(ret, "%s"))' % HE,
+             '_i <= len(self.routes) + 1'],
+        havoc={'ret': TObj(), 'params': TDict(TStr, TObj())},
+        modifies={'dispatch_state.exceptions': TList(TObj()), 'dispatch_state.allowed_methods': TMSet(TStr)},
+        havoc_attrs=['path_params', 'source_route'])
+    E.add_contract(Contract(
+        'clastic.application.Application.dispatch',
+        params={'self': TInst('clastic.application.Application', E.app_fields), 'request': TObj('Request')},
+        setup=setup, requires=wf,
+        inline=['clastic.route.BoundRoute.match_method'],
+        loops={('route', 'self.routes + [self._null_route]'): loop},
+        ensures=['isinstance_of(result, "%s")' % BR],
+        raises={'builtins.Exception': None},
+        raises_local={'builtins.Exception': 'isinstance_of(_exc, "%s") or RERAISE(self.error_handler)' % RR},
+        heavy=True, prop=['C06', 'C07', 'C08', 'C12']))
